@@ -229,6 +229,19 @@ def random_sd(rng, max_subnets=5, max_size=3, small=False, family=None):
             e = rng.choice(exploits)
             if e["srv"] not in fw[(0, p)]:
                 fw[(0, p)] = sorted(fw[(0, p)] + [e["srv"]])
+    # pivot-inside-a-public-subnet pattern (as in medium-multi-site): the internet rule admits only one
+    # service; a second host of that subnet is exploitable only through another service
+    if rng.random() < 0.2 and len(exploits) >= 2 and exploits[0]["srv"] != exploits[1]["srv"]:
+        p = pubs[0]
+        if subnets[p] >= 2:
+            fw[(0, p)] = [exploits[0]["srv"]]
+            hm_ = dict(hosts)
+            for h_id, e in ((0, exploits[0]), (1, exploits[1])):
+                c = hm_[(p, h_id)]
+                c["srv"] = [i == e["srv"] for i in range(nsrv)]
+                if e["os"] is not None:
+                    c["os"] = [i == e["os"] for i in range(nos)]
+                c["fw"] = {}
     nsens = rng.randint(1, min(3, len(addrs)))
     sens_addrs = rng.sample(addrs, nsens)
     hostmap = dict(hosts)
@@ -240,6 +253,20 @@ def random_sd(rng, max_subnets=5, max_size=3, small=False, family=None):
         b1 += rng.randint(0, 3)
     return dict(subnets=subnets, topo=topo, nos=nos, nsrv=nsrv, nproc=nproc, exploits=exploits,
                 privescs=privescs, costs=costs, fw=fw, hosts=hosts, sens=sens, limit=limit, bounds=(b0, b1))
+
+
+def permuted_sibling(sd):
+    """the same scenario with the three name lists in reverse order (same names, same meaning)"""
+    osn, srvn, procn = names(sd)
+    no, ns, npr = sd["nos"], sd["nsrv"], sd["nproc"]
+    s2 = dict(sd)
+    s2["names"] = (list(reversed(osn)), list(reversed(srvn)), list(reversed(procn)))
+    s2["exploits"] = [dict(e, srv=ns - 1 - e["srv"], os=None if e["os"] is None else no - 1 - e["os"]) for e in sd["exploits"]]
+    s2["privescs"] = [dict(q, proc=npr - 1 - q["proc"], os=None if q["os"] is None else no - 1 - q["os"]) for q in sd["privescs"]]
+    s2["fw"] = {k: [ns - 1 - x for x in v] for k, v in sd["fw"].items()}
+    s2["hosts"] = [(a, dict(c, os=list(reversed(c["os"])), srv=list(reversed(c["srv"])), proc=list(reversed(c["proc"])),
+                            fw={k: [ns - 1 - x for x in v] for k, v in c["fw"].items()})) for a, c in sd["hosts"]]
+    return s2
 
 
 def explore_sd(rng):
